@@ -4,6 +4,7 @@
 import FianoModel.Uefi.EditLemmas
 
 namespace Fiano.Uefi
+open EditArith
 open Fiano
 
 /-- the size of the image a tree stands for -/
@@ -228,6 +229,7 @@ theorem asmRegions_sized (h : Hooks) (tbl : List FlashRegion) (nr : Nat) (l l' :
 end Fiano.Uefi
 
 namespace Fiano.Uefi
+open EditArith
 open Fiano
 
 theorem repointFr_idem (tbl : List FlashRegion) (nr : Nat) (t : Int) (cur : Option FlashRegion) :
